@@ -39,7 +39,7 @@ def post_explore(ctx, res, pids, opts):
         p = ctx.parent.get(k)
         depth[k] = 0 if p is None else depth[p[0]] + 1
     limit = ctx.scenario.step_limit
-    want_reset = bool({"C04", "C03"} & set(pids))
+    want_reset = bool({"C04", "C03", "C05"} & set(pids))
     want_limit = "C06" in pids
     want_agree = "C13" in pids
     counts = {"resets": 0, "steps": 0, "probe_steps": 0, "limit_reached_cases": 0, "states": len(keys)}
@@ -105,6 +105,12 @@ def post_explore(ctx, res, pids, opts):
                     fp = run_probe(env)
                     counts["probe_steps"] += len(probe)
                     if fp != ref_probe:
+                        rew_diff = [j for j, (x, y) in enumerate(zip(fp, ref_probe)) if x[1] != y[1]]
+                        if "C05" in pids and rew_diff:
+                            ctx.report("C05", "reward_of_the_same_history_differs_after_reset", key=key,
+                                       detail={"probe_history": probe, "step": rew_diff[0],
+                                               "reward_after_reset": fp[rew_diff[0]][1],
+                                               "reward_on_fresh_environment": ref_probe[rew_diff[0]][1]})
                         ctx.report("C04", "behaviour_after_reset_differs_from_fresh_environment", key=key,
                                    detail={"probe_history": probe})
         # ------------------------------------------------------------ C06: "since the last reset"
@@ -178,6 +184,9 @@ def post_explore(ctx, res, pids, opts):
                         problems = []
                         if np.asarray(o).tobytes() != np.asarray(gflat).tobytes():
                             problems.append("observation")
+                        rec = getattr(ctx, "gen_obs_hash", {}).get((key, a_idx, side))
+                        if rec is not None and rec != hash(env.last_obs.tensor.tobytes()):
+                            problems.append("observation_of_the_generative_step_made_during_exploration")
                         if not (float(r) == float(gr)):
                             problems.append("reward")
                         if bool(done) != bool(gdone):
